@@ -32,6 +32,9 @@ CLAIMS = {
     "C10": ("model_checking", "MC_Run.tla parameter store (LatestOutcome, SubstitutionCommutes, error steps for use-before-measure / unbound) with symbolic histories executed against their numeric twins",
             "Affine and product expressions over a measured and a free parameter on X/Z/D gates (incl. a daggered one), measure / re-measure at another angle / re-prepare orders, bindings and re-bindings across segments and resets; each history runs symbolically (four call patterns incl. optimize) and as the numeric twin TLC emits; state, stored outcomes and the error class (ParameterError) are compared on gaussian, bosonic, fock.",
             "§5 C10", "2 modes, depth <= 4-5; outcomes forced by post-selection; TF tensors as parameters out of scope"),
+    "C13": ("model_checking", "MC_TDM.tla (UnrollMeansLoop / SpaceMeansLoop on the model; history machine RollRestores, CacheCoherent) + every call history and forced-outcome run executed on TDMProgram / Engine",
+            "TLC proves on the model, for single-band (N=2,3, incl. daggered and constant-parameter gates) and two-band templates, that register-shifting and space unrolling act on the same pulses with the same parameters and flags as the explicit loop, and emits the expected circuit after every history of unroll(1|2) / space_unroll(1) / roll calls (<= 3), the exact joint state of all pulses with measurements withheld, and the chain of conditional Born laws under forced outcomes; the harness executes every history (default and integer shift) and compares circuit, register and errors, runs with the generator intercepted (Born chain at every measurement, final window state, samples entry-wise by (shot, band, bin)), the space-unrolled run and the hand-written explicit loop.",
+            "§5 C13", "Gaussian simulator; T = 3-6 bins; shift default / 1; space unrolling at shots = 1 (state equivalence is stated there)"),
     "C15": ("model_checking", "self-composition in TLC (MC_Hbar.tla: invariant HbarFree) + replay of each program and its unit-rescaled twin at two hbar values on every simulator",
             "TLC proves on the model that, with X/Z amounts and homodyne post-selection values rescaled by sqrt(hbar2/hbar1), the hbar-free states coincide after every operation; each behaviour is then run at both hbar values (fresh processes) on gaussian, bosonic, fock-pure, fock-mixed and compared with the exact kernel state (scaling law) and pairwise on dimensionless results (mean photon number and variance, vacuum fidelity, Fock probabilities).",
             "§5 C15", "hbar = 2k^2 for rational k in {1, 1/2, 3/2, 2}; 2-3 modes, depth <= 2"),
